@@ -497,8 +497,25 @@ def _postfix_start(toks, match, i):
             j = match[j] - 1
             continue
         if t.kind == 'punct' and t.text == '}':
-            # a block expression is a primary expression: it starts the chain
-            j = match[j] - 1
+            # a block expression is a primary expression: it starts the chain -- together with its `match SCRUTINEE`
+            # head when it is the body of a match
+            o = match[j]
+            k = o - 1
+            head = None
+            while k >= 0:
+                tk = toks[k]
+                if tk.kind == 'punct' and tk.text in (')', ']'):
+                    k = match[k] - 1
+                    continue
+                if tk.kind == 'ident' and tk.text == 'match':
+                    head = k
+                    break
+                if tk.kind == 'punct' and tk.text in (';', '{', '}', '=', '(', ',', '[') :
+                    break
+                if tk.kind == 'ident' and tk.text in ('if', 'while', 'loop', 'for', 'else', 'let', 'return'):
+                    break
+                k -= 1
+            j = (head - 1) if head is not None else (o - 1)
             break
         if t.kind == 'ident' and t.text not in ('let', 'return', 'match', 'if', 'in', 'else', 'mut'):
             j -= 1
@@ -619,6 +636,37 @@ def rule_iter_reduce(text, dropped):
         n += 1
     if n:
         dropped.append(('iter-reduce', f'{n}x iterator reduce / max_by_key written as an explicit loop'))
+    return text
+
+
+def rule_handle_ctor(text, dropped):
+    """every `RawCacheEntry { .. }` struct literal (a handle taking over a looked-up record; its Drop gives the reference and
+    the eviction pin back) is counted in the ghost variable `verif_handles`:
+    `RawCacheEntry { .. }` -> `{ proof { verif_handles = verif_handles + 1; } RawCacheEntry { .. } }` (soft)"""
+    n = 0
+    pos = 0
+    while True:
+        toks, match = _stmt_tokens(text)
+        target = None
+        for i in range(len(toks) - 1):
+            if toks[i].s >= pos and toks[i].kind == 'ident' and toks[i].text == 'RawCacheEntry' and toks[i + 1].text == '{':
+                # not a struct definition / impl header / pattern after `let`
+                if i > 0 and toks[i - 1].text in ('struct', 'impl', 'for', 'let', '->', ':', '<', '|'):
+                    continue
+                target = i
+                break
+        if target is None:
+            break
+        i = target
+        close = match[i + 1]
+        new = '{ proof { verif_handles = verif_handles + 1; } ' + text[toks[i].s:toks[close].e] + ' }'
+        text = text[:toks[i].s] + new + text[toks[close].e:]
+        pos = toks[i].s + len('{ proof { verif_handles = verif_handles + 1; } RawCacheEntry')
+        n += 1
+        if n > 20:
+            raise SliceError('handle-ctor: too many rewrites')
+    if n:
+        dropped.append(('handle-ctor', f'{n}x `RawCacheEntry {{..}}` literal counted in the ghost variable verif_handles'))
     return text
 
 
@@ -765,6 +813,7 @@ RULES = {
     'result-inspect': rule_result_inspect,
     'option-map': rule_option_map,
     'iter-reduce': rule_iter_reduce,
+    'handle-ctor': rule_handle_ctor,
 }
 
 
